@@ -48,4 +48,9 @@ def deserialize {H : Type} (d : Doc H) : Option (Hll.St × H) :=
       if r.all (· < 256) then (Hll.withRegisters b r.toArray).map (·, h) else none
     | _, _, _ => none
 
+/-- A positional document (`[registers, b, buildhasher]`, the form compact formats and JSON
+arrays use): the visitor implements `visit_map` only, so serde's default `visit_seq` answers
+`invalid type: sequence` whatever the values are. -/
+def deserializeSeq {H : Type} (_values : Doc H) : Option (Hll.St × H) := none
+
 end Pds.Serde
